@@ -387,6 +387,58 @@ class EmptyPickleError(PickleDecodeError):
     pass
 
 
+class _RecordingReader:
+    """Gives a non-seekable stream the tell() and seek() that Pickled.load needs. Bytes are taken from
+    the stream only when they are asked for, and every byte handed out is kept: seeking back re-reads
+    from memory, and the caller's stream loses nothing beyond what the parser consumed."""
+
+    def __init__(self, stream: BinaryIO):
+        self._stream = stream
+        self._seen = bytearray()
+        self._pos = 0
+
+    def seekable(self) -> bool:
+        return True
+
+    def tell(self) -> int:
+        return self._pos
+
+    def seek(self, pos: int, whence: int = 0) -> int:
+        if whence != 0 or not 0 <= pos <= len(self._seen):
+            raise ValueError("can only seek to an absolute position that has already been read")
+        self._pos = pos
+        return pos
+
+    def _take(self, end: int) -> bytes:
+        data = bytes(self._seen[self._pos : end])
+        self._pos += len(data)
+        return data
+
+    def read(self, n: Optional[int] = -1) -> bytes:
+        if n is None or n < 0:
+            self._seen += self._stream.read()
+            return self._take(len(self._seen))
+        while len(self._seen) < self._pos + n:
+            chunk = self._stream.read(min(self._pos + n - len(self._seen), 1 << 20))
+            if not chunk:
+                break
+            self._seen += chunk
+        return self._take(self._pos + n)
+
+    def readline(self) -> bytes:
+        end = self._seen.find(b"\n", self._pos) + 1
+        if not end:  # the rest of the line has not been read yet
+            if hasattr(self._stream, "readline"):
+                self._seen += self._stream.readline()
+            else:
+                byte = self._stream.read(1)
+                while byte:
+                    self._seen += byte
+                    byte = self._stream.read(1) if byte != b"\n" else b""
+            end = len(self._seen)
+        return self._take(end)
+
+
 class Pickled(OpcodeSequence):
     def __init__(self, opcodes: Iterable[Opcode]):
         self._opcodes: List[Opcode] = list(opcodes)
@@ -715,7 +767,7 @@ class Pickled(OpcodeSequence):
         if isinstance(data, (bytes, bytearray, ByteString)):
             data = BytesIO(data)
         elif (not hasattr(data, "seekable") or not data.seekable()) and hasattr(data, "read"):
-            data = BytesIO(data.read())
+            data = _RecordingReader(data)
         return data
 
     @staticmethod
